@@ -26,6 +26,34 @@ class HarnessSeamMissing(Exception):
     pass
 
 
+_ORIG: Dict[str, Any] = {}
+
+
+class unpatched:
+    """Context manager for live tiers that start REAL proxy processes from a process in which harness K is installed:
+    the process-wide rebindings are undone for the duration (child processes are forked with the real functions)."""
+
+    def __enter__(self) -> None:
+        if not _PATCHED:
+            return
+        import proxy.core.connection.server as srv
+        import proxy.core.work.threadless as tl
+        import proxy.http.handler as hh
+        self.saved = (srv.new_socket_connection, tl.DEFAULT_SELECTOR_SELECT_TIMEOUT, hh.DEFAULT_SELECTOR_SELECT_TIMEOUT, hh.time)
+        srv.new_socket_connection = _ORIG['connect']
+        tl.DEFAULT_SELECTOR_SELECT_TIMEOUT = _ORIG['tl_timeout']
+        hh.DEFAULT_SELECTOR_SELECT_TIMEOUT = _ORIG['hh_timeout']
+        hh.time = _ORIG['hh_time']
+
+    def __exit__(self, *a: Any) -> None:
+        if not _PATCHED:
+            return
+        import proxy.core.connection.server as srv
+        import proxy.core.work.threadless as tl
+        import proxy.http.handler as hh
+        srv.new_socket_connection, tl.DEFAULT_SELECTOR_SELECT_TIMEOUT, hh.DEFAULT_SELECTOR_SELECT_TIMEOUT, hh.time = self.saved
+
+
 class VClock:
     """Stands in for the `time` module inside proxy.http.handler: time() is real time plus a harness-owned offset
     (or a fully virtual value once `set` is used)."""
@@ -62,6 +90,9 @@ def install() -> None:
                       (hh, 'DEFAULT_SELECTOR_SELECT_TIMEOUT'), (hh, 'time')):
         if not hasattr(mod, name):
             raise HarnessSeamMissing('%s.%s' % (mod.__name__, name))
+
+    _ORIG.update(connect=srv.new_socket_connection, tl_timeout=tl.DEFAULT_SELECTOR_SELECT_TIMEOUT,
+                 hh_timeout=hh.DEFAULT_SELECTOR_SELECT_TIMEOUT, hh_time=hh.time)
 
     def _connect(addr: Any, timeout: float = 10.0, source_address: Any = None) -> socket.socket:
         if CURRENT is None:
